@@ -733,6 +733,29 @@ def mon_c14(cfg, steps):
                 for other in ("N", "L", "reward", "fees", "admin", "pending", "batches", "reqs", "pkts", "waits"):
                     if st[other] != pre[other]:
                         out.append({"step": s.idx, "what": "UpdateConfig changed %s" % other})
+                # every supplied section is applied: the fields stored verbatim carry the supplied values
+                def u(x):
+                    return unhex(x).decode("utf-8", "replace")
+                if t[6] != "-":
+                    f = t[6][1:-1].split(";")
+                    sup = dict(denom=u(f[2]), validators=[u(x) for x in f[3][1:-1].split(",") if x], unbonding=int(f[4]), staker=u(f[5]), collector=u(f[6]))
+                    bad = [k2 for k2, v2 in sup.items() if st["native"][k2] != v2]
+                    if bad:
+                        out.append({"step": s.idx, "what": "UpdateConfig with a native section did not apply its fields %r" % bad})
+                if t[7] != "-":
+                    f = t[7][1:-1].split(";")
+                    sup = dict(denom=u(f[1]), channel=u(f[2]), min=int(f[3]), oracle=None if f[4] == "-" else u(f[4]))
+                    bad = [k2 for k2, v2 in sup.items() if st["protocol"][k2] != v2]
+                    if bad:
+                        out.append({"step": s.idx, "what": "UpdateConfig with a protocol section did not apply its fields %r" % bad})
+                if t[8] != "-":
+                    f = t[8][1:-1].split(";")
+                    if st["fee"]["rate"] != int(f[0]) or st["fee"]["treasury"] != (None if f[1] == "-" else u(f[1])):
+                        out.append({"step": s.idx, "what": "UpdateConfig with a fee section did not apply it"})
+                if t[9] != "-" and st["monitors"] != [u(x) for x in t[9][1:-1].split(",") if x]:
+                    out.append({"step": s.idx, "what": "UpdateConfig with a monitors section did not apply it"})
+                if t[10] != "-" and st["batch_period"] != int(t[10]):
+                    out.append({"step": s.idx, "what": "UpdateConfig with a batch period did not apply it"})
             elif k in ("addval", "rmval"):
                 v = unhex(t[6]).decode("utf-8", "replace"); old = pre["native"]["validators"]; new = st["native"]["validators"]
                 exp = old + [v] if k == "addval" else [x for i2, x in enumerate(old) if not (x == v and i2 == old.index(v))]
@@ -764,12 +787,17 @@ import hashlib as _hl
 def mon_c09(cfg, steps):
     out = []
     configured = None     # the channel id as supplied by the admin in the last accepted instantiate / UpdateConfig
+    conf_native = None    # (staker, collector) as supplied by the admin, likewise
     for s in steps:
         t = s.optoks
         if t[0] == "inst" and s.res == "ok":
             configured = unhex(t[12]).decode("utf-8", "replace")
+            conf_native = (unhex(t[8]).decode("utf-8", "replace"), unhex(t[9]).decode("utf-8", "replace"))
         if t[0] == "exec" and t[5] == "updcfg" and s.res == "ok" and not s.aborted and t[7] != "-":
             configured = unhex(t[7][1:-1].split(";")[2]).decode("utf-8", "replace")
+        if t[0] == "exec" and t[5] == "updcfg" and s.res == "ok" and not s.aborted and t[6] != "-":
+            f = t[6][1:-1].split(";")
+            conf_native = (unhex(f[5]).decode("utf-8", "replace"), unhex(f[6]).decode("utf-8", "replace"))
         if t[0] == "fn" and s.fn:
             if t[1] == "sha256":
                 exp = hx(_hl.sha256(unhex(t[2])).digest())
@@ -784,12 +812,15 @@ def mon_c09(cfg, steps):
         if t[0] == "exec" and s.pre is not None and t[5] in ("rewards", "unstaked"):
             who = unhex(t[3]).decode("utf-8", "replace"); pre = s.pre
             native = pre["native"]["collector"] if t[5] == "rewards" else pre["native"]["staker"]
+            if conf_native is not None and not s.intx:
+                native = conf_native[1] if t[5] == "rewards" else conf_native[0]
             chan = configured if configured is not None else pre["protocol"]["channel"]
             hook = b32.hook_sender(chan, native, pre["protocol"]["prefix"])
             if s.res == "ok" and who != hook:
                 out.append({"step": s.idx, "what": "%s accepted sender %s; the ibc-hooks account of the configured (%s, %s) is %s" % (t[5], who, chan, native, hook)})
-            if s.res == "err" and who == hook and not pre["stopped"] and s.pre["protocol"]["channel"] != chan:
-                out.append({"step": s.idx, "what": "%s refused the ibc-hooks account of the configured channel %s (stored channel %s)" % (t[5], chan, s.pre["protocol"]["channel"])})
+            stored_native = pre["native"]["collector"] if t[5] == "rewards" else pre["native"]["staker"]
+            if s.res == "err" and who == hook and not pre["stopped"] and (s.pre["protocol"]["channel"] != chan or stored_native != native):
+                out.append({"step": s.idx, "what": "%s refused the ibc-hooks account of the configured (%s, %s) (stored: %s, %s)" % (t[5], chan, native, s.pre["protocol"]["channel"], stored_native)})
     return out
 
 
@@ -824,7 +855,15 @@ def mon_c07(cfg, steps):
         if t[0] == "sudo" and s.note and s.note[0] == "relay":
             seq = int(s.note[1]); oc = s.note[2]
             if seq in chain:
-                chain[seq]["state"] = "delivered" if oc == "ok" else "refunded:" + oc
+                on_channel = s.pre is None or unhex(t[2]).decode("utf-8", "replace") == s.pre["protocol"]["channel"]
+                if on_channel:
+                    chain[seq]["state"] = "delivered" if oc == "ok" else "refunded:" + oc
+                else:
+                    # the admin re-configured the channel while this packet was in flight: its settlement now is
+                    # "an acknowledgement for another channel", which must change nothing -- the record stays as it is
+                    if s.st is not None and s.pre is not None and s.st != s.pre:
+                        out.append({"step": s.idx, "what": "a settlement for the replaced channel changed the store"})
+                    chain[seq]["state"] = "orphaned"
         if t[0] == "sudo" and s.note and s.note[0] == "stray" and s.pre is not None and s.st is not None and s.res == "ok":
             if s.st != s.pre:
                 out.append({"step": s.idx, "what": "a stray %s changed the store" % " ".join(t[1:])})
